@@ -245,7 +245,7 @@ pub fn main(args: &Args) -> i32 {
         };
     }
     use proptest::prelude::*;
-    let cases = if args.cases > 0 { args.cases } else if args.thorough() { 60000 } else { 5000 };
+    let cases = if args.cases > 0 { args.cases } else if args.thorough() { 60000 } else { 3000 };
     let strat = (priority_patterns(), prop::option::weighted(0.15, 0usize..40), prop::bool::weighted(0.25));
     let mut code = 0;
     match drive(&strat, cases, args.seed ^ 0xC09, 800, &mut run, |c, run| check_pattern(c, run)) {
